@@ -6,7 +6,7 @@ import numpy as np
 import scale, impl, gen, oracle, evalutil as E
 from common import close, same_value
 
-RULE = ("long-array corpus (oracle only): matched instances 25k-100k voxels apart along one axis; metric-selection variants (duplicated metrics, centre-line Dice first/middle/last, reorderings: every other value must be unchanged); 1-D/2-D/3-D label-map pairs built from objects (touching, diagonal, split, merged, shifted, border instances, "
+RULE = ("backend sweeps on one evaluator (cca_backend re-assigned between evaluations); maps with an axis of length one; long-array corpus (oracle only): matched instances 25k-100k voxels apart along one axis; metric-selection variants (duplicated metrics, centre-line Dice first/middle/last, reorderings: every other value must be unchanged); 1-D/2-D/3-D label-map pairs built from objects (touching, diagonal, split, merged, shifted, border instances, "
         "up to 24 instances per side) x input type {SEMANTIC, UNMATCHED, MATCHED} x matching metric {IOU, DSC, ASSD} x "
         "thresholds (grid + exact hits) x optional decision metric/threshold x backends {default, cc3d, scipy}; every "
         "result compared (a) with an independent implementation of the documented definitions on the voxel sets whenever "
@@ -197,6 +197,10 @@ def run_cases(ctx, n, tag):
     rng = ctx.rng
     for i in range(n):
         pred, ref = gen.pair(rng, hi=7, max_obj=5)
+        if pred.ndim <= 2 and rng.random() < 0.12:
+            ax = rng.randint(0, pred.ndim)         # the same maps stored with an axis of length one
+            pred, ref = np.expand_dims(pred, ax), np.expand_dims(ref, ax)
+            ctx.count("singleton_axis")
         one_case(ctx, pred, ref, rand_cfg(ctx, pred, ref), f"{tag}{i}")
         if i % 3 == 0:
             # a small pool of fixed configurations whose evaluators live across cases of different dimensionality
@@ -236,6 +240,51 @@ def selection_cases(ctx, n):
         if inv or book:
             ctx.violation("C01 violated: a reported value depends on the other requested metrics: " + (inv + book)[0], inp,
                           impl=(inv + book)[:5], key={"kind": "metric-selection"})
+
+
+def reassigned_backend_cases(ctx, n):
+    """one evaluator re-used for a backend sweep: the approximator's public attribute cca_backend is re-assigned between
+    evaluations; every evaluation must follow the backend that is selected at that moment"""
+    from panoptica import Panoptica_Evaluator, ConnectedComponentsInstanceApproximator
+    rng = ctx.rng
+    for i in range(n):
+        nd = rng.choice([2, 3])
+        first = rng.choice([None, "cc3d", "scipy"])
+        cfg = E.mk_cfg("SEMANTIC", ["IOU", "DSC"], matcher=E.naive("IOU", (1, 2)), backend=first)
+        with impl.quiet():
+            ap = ConnectedComponentsInstanceApproximator(cca_backend=impl.BACKEND[first])
+            ev = Panoptica_Evaluator(expected_input=impl.INPUT["SEMANTIC"], instance_approximator=ap, instance_matcher=impl.mk_matcher(cfg["matcher"]),
+                                     instance_metrics=[impl.METRICS[m] for m in cfg["eval_metrics"]], global_metrics=[])
+        hist = []
+        for step in range(rng.randint(2, 4)):
+            sel = rng.choice([None, "cc3d", "scipy"])
+            ap.cca_backend = impl.BACKEND[sel]
+            # diagonal contacts: the two connectivities disagree
+            shape = (rng.randint(4, 6),) * nd
+            ref = np.zeros(shape, np.uint8)
+            for t in range(rng.randint(2, shape[0])):
+                ref[(t,) * nd] = 1
+            ref[(shape[0] - 1,) + (0,) * (nd - 1)] = 1
+            pred = ref.copy()
+            pred[(0,) * nd] = 0
+            eff = sel or ("cc3d" if nd >= 3 else "scipy")
+            cfg_now = dict(cfg)
+            cfg_now["backend"] = sel
+            inp = {"shape": list(shape), "dtype": "uint8", "pred": gen.arr_json(pred), "ref": gen.arr_json(ref), "cfg": cfg_now,
+                   "constructed_with": first, "history": list(hist), "src": f"sweep{i}.{step}"}
+            hist.append(sel)
+            ctx.case(inp, sel != first)
+            ctx.count("backend_reassigned_after_construction")
+            res = E.run_impl(cfg_now, pred, ref, evaluator=ev)
+            spec = oracle.spec_pipeline(pred, ref, "SEMANTIC", eff, ("IOU", (1, 2), False), None, cfg["eval_metrics"])
+            if isinstance(res, str) or spec is None:
+                continue
+            s_ = res["ungrouped"]
+            for k_impl, k_spec in (("num_pred_instances", "n_pred"), ("num_ref_instances", "n_ref"), ("tp", "tp")):
+                if s_[k_impl] != spec[k_spec]:
+                    ctx.violation(f"C01 violated after re-selecting the backend ({first} at construction, {sel} now): {k_impl} = {s_[k_impl]}, "
+                                  f"but the documented definitions with backend {eff} give {spec[k_spec]}", inp, impl=s_, key={"kind": "definitions"})
+                    break
 
 
 def scale_recipes():
@@ -279,6 +328,7 @@ def run(ctx):
     for k, rec in enumerate(scale_recipes()):
         scale_case(ctx, rec, f"scale{k}")
     selection_cases(ctx, ctx.scale(40, 400))
+    reassigned_backend_cases(ctx, ctx.scale(25, 250))
     exhaustive(ctx, (1, 3) if ctx.quick else (1, 4))
     run_cases(ctx, ctx.scale(700, 8000), "rand")
 
@@ -290,6 +340,9 @@ def search(ctx):
 def replay(ctx, rec):
     if "recipe" in rec["input"]:
         scale_case(ctx, rec["input"]["recipe"], "replay")
+        return
+    if "constructed_with" in rec["input"]:
+        reassigned_backend_cases(ctx, 60)
         return
     if "variants" in rec["input"]:
         i = rec["input"]
